@@ -339,6 +339,13 @@ def _(c):
         p, n, item = sibs(h0, s)
         if z3.is_true(x.a.any_kind):
             return And(x.r == h0.pos(s), unchanged_lists(x))
+        import contracts.vocab as V
+
+        if V.RT_EVAL is not None:  # run-time cross-check: the witnessed statement decided directly on the snapshot
+            E = V.RT_EVAL
+            me = E.value(h0.pos(s))
+            same = sum(1 for kk in range(me) if E.holds(h0._kind(item(z3.IntVal(kk))) == h0._kind(s)))
+            return And(unchanged_lists(x), z3.BoolVal(E.value(x.r) == same))
         # position of self inside the kind-filtered sibling list: witnessed by the filter's embedding
         emb, inv = last_filter(x)
         F = L.fresh("F", L.LRef)
